@@ -187,7 +187,12 @@ pub fn tree_walker(
             .ok_or(XcpError::InvalidSource("Failed to find source directory name."))?;
 
         let target_base = if dest.exists() && dest.is_dir() && !config.no_target_directory {
-            dest.join(sourcedir)
+            // `.`, `..` and `/` have no name of their own: like cp,
+            // their contents go into the destination itself.
+            match sourcedir {
+                std::path::Component::Normal(name) => dest.join(name),
+                _ => dest.to_path_buf(),
+            }
         } else {
             dest.to_path_buf()
         };
